@@ -290,3 +290,72 @@ func vrpJoinedKeys(t *testing.T) {
 	}
 	fmt.Printf("REPLAY-CASES fn=%s n=%d\n", fnE, m)
 }
+
+// TestVerifReplayLoadOwner (C02): the former version of an intent is marked for deletion as a whole, also when the store
+// hands out a path of it twice (the real cache keeps the superseded copy of a value that was overwritten under the same
+// owner and priority). Nothing of a version that is given up survives in the intended store.
+func TestVerifReplayLoadOwner(t *testing.T) {
+	fn := "(*tree.RootEntry).LoadIntendedStoreOwnerData"
+	ctx := context.Background()
+	sv := func(s string) []byte {
+		b, _ := proto.Marshal(&sdcpb.TypedValue{Value: &sdcpb.TypedValue_StringVal{StringVal: s}})
+		return b
+	}
+	n := 0
+	for _, sc := range []struct {
+		name   string
+		stored []*cache.Update
+	}{
+		{"every path stored once", []*cache.Update{
+			cache.NewUpdate([]string{"interface", "ethernet-1/1", "name"}, sv("ethernet-1/1"), 10, "owner1", 1),
+			cache.NewUpdate([]string{"interface", "ethernet-1/1", "description"}, sv("A"), 10, "owner1", 1)}},
+		{"the description stored twice (A, then B, the superseded copy still there)", []*cache.Update{
+			cache.NewUpdate([]string{"interface", "ethernet-1/1", "name"}, sv("ethernet-1/1"), 10, "owner1", 1),
+			cache.NewUpdate([]string{"interface", "ethernet-1/1", "description"}, sv("A"), 10, "owner1", 1),
+			cache.NewUpdate([]string{"interface", "ethernet-1/1", "description"}, sv("B"), 10, "owner1", 2)}},
+		{"the description stored twice with the same value", []*cache.Update{
+			cache.NewUpdate([]string{"interface", "ethernet-1/1", "name"}, sv("ethernet-1/1"), 10, "owner1", 1),
+			cache.NewUpdate([]string{"interface", "ethernet-1/1", "description"}, sv("A"), 10, "owner1", 1),
+			cache.NewUpdate([]string{"interface", "ethernet-1/1", "description"}, sv("A"), 10, "owner1", 2)}},
+	} {
+		n++
+		mockCtrl := gomock.NewController(t)
+		scb, err := testhelper.GetSchemaClientBound(t, mockCtrl)
+		if err != nil {
+			t.Fatal(err)
+		}
+		cacheClient := mockcacheclient.NewMockClient(mockCtrl)
+		testhelper.ConfigureCacheClientMock(t, cacheClient, sc.stored, []*cache.Update{}, []*cache.Update{}, [][]string{})
+		root, err := NewTreeRoot(ctx, NewTreeContext(NewTreeCacheClient("dev1", cacheClient), scb, "owner1"))
+		if err != nil {
+			t.Fatal(err)
+		}
+		in := "the intent is given up, former version: " + sc.name
+		func() {
+			defer func() {
+				if r := recover(); r != nil {
+					fmt.Printf("REPLAY-FAIL fn=%s clause=panic input=%s panic=%v\n", fn, in, r)
+				}
+			}()
+			if _, err := root.LoadIntendedStoreOwnerData(ctx, "owner1", false); err != nil {
+				fmt.Printf("REPLAY-FAIL fn=%s clause=the_former_version_is_marked_as_a_whole_after_loading input=%s why=error %v\n", fn, in, err)
+				return
+			}
+			root.FinishInsertionPhase(ctx)
+			var dels []string
+			for _, d := range root.GetDeletesForOwner("owner1") {
+				dels = append(dels, strings.Join(d, "/"))
+			}
+			sort.Strings(dels)
+			var upds []string
+			for _, u := range root.GetUpdatesForOwner("owner1") {
+				upds = append(upds, strings.Join(u.GetPath(), "/"))
+			}
+			if strings.Join(dels, "; ") != "interface/ethernet-1/1/description; interface/ethernet-1/1/name" || len(upds) != 0 {
+				fmt.Printf("REPLAY-FAIL fn=%s clause=the_former_version_is_marked_as_a_whole_after_loading input=%s why=the intended store is told to remove [%s] and to write %v: what is not removed survives the intent\n", fn, in, strings.Join(dels, "; "), upds)
+			}
+		}()
+		mockCtrl.Finish()
+	}
+	fmt.Printf("REPLAY-CASES fn=%s n=%d\n", fn, n)
+}
